@@ -57,6 +57,13 @@ def run_one(ck, prog):
                         fail_edges.append((e, f))
                     if isinstance(ys, tuple) and ys[0] == "call" and ys[3] == cb and ((f[1] == "Gt" and fold(f[2]) == 0) or (f[1] == "Ge" and fold(f[2]) == -1)):
                         fail_edges.append((e, f))
+                if f[0] == "truth" and isinstance(f[1], tuple) and f[1][0] == "call" and f[1][2]:
+                    nm = f[1][1] or ""
+                    arg = strip_casts(f[1][2][0])
+                    direct = isinstance(arg, tuple) and arg[0] == "call" and arg[3] == cb
+                    # `res.is_negative()` true / `res.is_positive()`-style tests written as method calls
+                    if direct and ((nm.endswith("::is_negative") and f[2] is True)):
+                        fail_edges.append((e, f))
     ok_examined = False
     for e, f in fail_edges:
         # from this edge every return is an Err (no JoinHandle built)
@@ -269,5 +276,13 @@ def check_layout(ck, prog):
                 if st["k"] == "assign" and st["dst"]["l"] == 0:
                     facts = panics.dominating_facts(c4, b["id"]) if "panics" in globals() else []
                     res[canon(c4.prov.rvalue(st["rv"], (b["id"], i)))] = [(f[1], canon(f[2]), canon(f[3])) for f in facts if f[0] == "cmp"]
-        ok = res.get("p1") in ([("Gt", "p1", "p2")], [("Ge", "p1", "p2")]) and res.get("p2") in ([("Le", "p1", "p2")], [("Lt", "p1", "p2")])
+        def norm(fs):
+            out = []
+            for op, a, b in fs or []:
+                if (a, b) == ("p2", "p1"):
+                    op = {"Gt": "Lt", "Ge": "Le", "Lt": "Gt", "Le": "Ge"}.get(op, op)
+                    a, b = b, a
+                out.append((op, a, b))
+            return out
+        ok = norm(res.get("p1")) in ([("Gt", "p1", "p2")], [("Ge", "p1", "p2")]) and norm(res.get("p2")) in ([("Le", "p1", "p2")], [("Lt", "p1", "p2")])
         ck.ob("C05.8", "max-is-max", ok, fn=mx["path"], detail=f"max(a, b) must return a when a > b and b otherwise; found {res}")
